@@ -1112,8 +1112,8 @@ func liftOver(x, other *E) bool {
 	if other.IsConst() || other.IsNil() || other.Op == "bool" {
 		return true
 	}
-	// a selection among constants (nested selections included, up to 16 alternatives): a rank
-	return constLeaves(x, 16) > 0 && (other.Op != "ite" || constLeaves(other, 16) > 0)
+	// a selection among constants (nested selections included, up to 64 alternatives): a rank
+	return constLeaves(x, 64) > 0 && (other.Op != "ite" || constLeaves(other, 64) > 0)
 }
 
 // constLeaves counts the alternatives of a (nested) selection if all of them are constants and
